@@ -161,6 +161,21 @@ def body_info(body):
 # Iterator::try_fold / fold / for_each / try_for_each with a closure whose body is available are interpreted through a small synthetic
 # MIR body (a loop around Iterator::next that calls the closure), so that a rule sees `xs.iter().try_fold(init, |acc, x| ..)` exactly as
 # it sees the equivalent `for x in xs { .. }`.  Only used when the rule's hooks opt in to inlining that closure.
+# Second-chance mode (engine.framework): private helper functions of the analysed function's own file are interpreted in place instead of
+# being treated as opaque calls.  Inlining preserves semantics, so an obligation that holds in this mode holds; it is used only to
+# re-decide obligations that failed in the normal mode, so that extracting a few lines into a private helper does not raise an alarm.
+INLINE_PRIVATE_HELPERS = False
+
+
+def is_private_fn(fn):
+    vis = fn.get("vis") or ""
+    key = fn.get("key", "")
+    if fn.get("kind") not in ("fn", "assoc") or key.startswith("<") and " as " in key.split(">::")[0]:
+        return False
+    owner = key.rsplit("::", 1)[0].lstrip("<")
+    return vis is None or vis == "" or (vis.startswith("in:") and owner.startswith(vis[3:]))
+
+
 FOLD_DECLS = {"std::iter::Iterator::try_fold": "try_fold", "std::iter::Iterator::fold": "fold",
               "std::iter::Iterator::for_each": "for_each", "std::iter::Iterator::try_for_each": "try_for_each"}
 # adaptors that only carry a closure along (map, filter, any, ...): the closure is interpreted ONCE on a symbolic element ("probe"), so a
@@ -1007,6 +1022,31 @@ class AI:
             if v[0] == "enum" and v[1] == OPTION and v[2] == 0:
                 return [(st, ("enum", OPTION, 0, ()))]
             return None
+        # iteration over an array / slice whose elements are known (`for (a, b) in [(x, y), (z, w)] { .. }`): the iterator is a concrete
+        # cursor over the element values, so a loop over a fixed table is unrolled instead of being treated as an unknown sequence
+        if decl == "std::iter::IntoIterator::into_iter" and len(args) == 1 and not callee.get("local"):
+            v = self.resolve(st, args[0])
+            by_ref = False
+            if v[0] == "ref":
+                inner = self.resolve(st, self.read_at(st, v[1], v[2]))
+                if inner[0] == "tuple":
+                    v, by_ref = inner, True
+            sty = self.operand_ty(frame, term["args"][0])
+            sk = sty.strip_refs().kind if sty is not None else None
+            if v[0] == "tuple" and sk in ("array", "slice") and 0 < len(v[1]) <= 8:
+                elems = v[1] if not by_ref else tuple(("ref", args[0][1] if args[0][0] == "ref" else None, ()) for _ in v[1])
+                if not by_ref:
+                    return [(st, ("tuple", (("str", "__array_cursor__"), ("tuple", tuple(v[1])), ("int", 0))))]
+        if decl == "std::iter::Iterator::next" and len(args) == 1:
+            it = self.resolve(st, args[0])
+            if it[0] == "ref":
+                cur = self.resolve(st, self.read_at(st, it[1], it[2]))
+                if cur[0] == "tuple" and len(cur[1]) == 3 and cur[1][0] == ("str", "__array_cursor__"):
+                    elems, idx = cur[1][1][1], cur[1][2][1]
+                    if idx < len(elems):
+                        self.write_ref(st, it, ("tuple", (cur[1][0], cur[1][1], ("int", idx + 1))))
+                        return [(st, ("enum", OPTION, 1, (elems[idx],)))]
+                    return [(st, ("enum", OPTION, 0, ()))]
         # error-plumbing combinators that leave the success value alone (`r.map_err(f)?` == `match r { Ok(v) => v, Err(e) => return Err(f(e)) }`)
         if path in ("std::result::Result::map_err", "std::option::Option::ok_or", "std::option::Option::ok_or_else", "std::result::Result::ok",
                     "std::result::Result::err", "std::result::Result::or_else") and args:
@@ -1154,7 +1194,8 @@ class AI:
             return None
         try:
             sub.run(fv[1], args=cargs, ext=ext)
-        except Undecided:
+        except (Undecided, IndexError, KeyError):
+            # (a reference into a frame of the calling interpreter cannot be followed in the nested one: treat the call as opaque)
             return None
         out = set(v for v, m, t in sub.returns)
         argsyms = set()
@@ -1290,7 +1331,8 @@ class AI:
         # 3. inline
         if target_key is not None and call_args is not None and target_key in self.cr.fns and len(st.frames) < self.max_depth:
             fn = self.cr.fns[target_key]
-            if self.hooks.inline(self, st, target_key, fn):
+            if self.hooks.inline(self, st, target_key, fn) or (INLINE_PRIVATE_HELPERS and is_private_fn(fn) and target_key != st.frames[0].fkey
+                                                              and fn.get("file") == st.frames[0].body.get("file") and target_key not in [fr.fkey for fr in st.frames]):
                 if to is None:
                     return []
                 s2 = st
